@@ -72,6 +72,40 @@ Proof. reflexivity. Qed.
 Lemma tie_tuple_sizes : gen_tuple_sizes = tuple_sizes.
 Proof. reflexivity. Qed.
 
+(* ---- the functions whose whole body is one reinterpretation of the argument ---- *)
+Definition transmute_of (name : string) : option (string * string) :=
+  match find (fun r => String.eqb (fst (fst r)) name) gen_transmutes with
+  | Some (_, k, a) => Some (k, a)
+  | None => None
+  end.
+
+(* by value: the size-checked const_transmute (lib.rs:997, modelled by Views.const_transmute) *)
+Lemma tie_transmutes_by_value :
+  transmute_of "GenericArray::from_array" = Some ("const_transmute", "value") /\
+  transmute_of "GenericArray::into_array" = Some ("const_transmute", "self") /\
+  transmute_of "GenericArray::Flatten::flatten" = Some ("const_transmute", "self") /\
+  transmute_of "GenericArray::Unflatten::unflatten" = Some ("const_transmute", "self").
+Proof. repeat split. Qed.
+
+(* references and slices: a plain transmute of the reference -- the same address, the length
+   fixed by the where-clauses C12 is about *)
+Lemma tie_transmutes_by_ref :
+  transmute_of "&GenericArray::Flatten::flatten" = Some ("transmute", "self") /\
+  transmute_of "&mut GenericArray::Flatten::flatten" = Some ("transmute", "self") /\
+  transmute_of "&GenericArray::Unflatten::unflatten" = Some ("transmute", "self") /\
+  transmute_of "&mut GenericArray::Unflatten::unflatten" = Some ("transmute", "self") /\
+  transmute_of "GenericArray::from_chunks" = Some ("transmute", "chunks") /\
+  transmute_of "GenericArray::from_chunks_mut" = Some ("transmute", "chunks") /\
+  transmute_of "GenericArray::into_chunks" = Some ("transmute", "chunks") /\
+  transmute_of "GenericArray::into_chunks_mut" = Some ("transmute", "chunks") /\
+  transmute_of "GenericArray::AsRef<[T; U]>::as_ref" = Some ("transmute", "self") /\
+  transmute_of "GenericArray::AsMut<[T; U]>::as_mut" = Some ("transmute", "self").
+Proof. repeat split. Qed.
+
+(* and these fourteen are all there are *)
+Lemma tie_transmutes_count : length gen_transmutes = 14%nat.
+Proof. reflexivity. Qed.
+
 (* ---- the inverse bounds of Lengthen / Shorten as they stand in the trait declarations ---- *)
 Definition inverse_eq_of (tr : string) : bool :=
   match find (fun r => String.eqb (fst (fst (fst r))) tr) gen_inverse_bounds with
